@@ -147,4 +147,28 @@ pub fn c08(out: &mut Out, rng: &mut Rng, tier: &Tier) {
     c08_type::<Kmer5>(out, seed, tier, &mut counter);
     c08_type::<Kmer6>(out, seed, tier, &mut counter);
     c08_type::<Kmer8>(out, seed, tier, &mut counter);
+    // the known-finding class of C07 (2k-p > 65535) seen through msp_sequence: k = 32772, p = 8, 65536 A's ->
+    // ONE piece built from the wrapped length 0 (empty piece, bogus right extension).  The checker op carries
+    // the class in its name; the model line (about 2 min of unary arithmetic) is written in the thorough tier only.
+    counter += 1;
+    if counter % tier.nshards == tier.shard {
+        let read = vec![0u8; 65536];
+        let k = 32772usize;
+        let (maxlen, res) = run_any::<Kmer8>(0, k, &read, None, true);
+        out.nt = true;
+        if tier.thorough {
+            out.case(
+                "msp.sequence",
+                l(vec![n(maxlen), dna(&read), nu(k), nu(8), l(vec![]), b(true)]),
+                opt(res.as_ref().map(|v| l(v.iter().map(piece_v).collect()))),
+            );
+        }
+        if let Some(v) = res {
+            if v.len() <= 64 {
+                let all = vec![l(vec![dna(&read), l(v.iter().map(piece_v).collect())])];
+                out.case("chk.msp.unguarded", l(vec![nu(k), b(true), l(all)]), n(1u8));
+            }
+        }
+        out.nt = false;
+    }
 }
